@@ -19,10 +19,11 @@ class C06(Prop):
     level_text = ('Theorem C06_translation: for every legend-free input with a non-empty cell map, every settings value and every offset (k,n), the document of the moved text is the original with the canvas enlarged by (k,n) cells and exactly the drawing nodes of the original translated by (k*scale, 2*n*scale): same elements, same order, same classes, same text. '
                   'Proved through every stage for all inputs: lines/rows/escape_line under indentation, the three merge loops (M4 equivariance), fragment buffer (sorted map, per-cell sort), contacts, rect/rounded-rect endorsement, circle/arc matching on localised spans, the enclosure pass (under the table invariant that polygons are non-empty, re-proved on regenerated tables), node emission in exact rationals.')
     level_note = 'the float code can depend on position only through rounding (parry epsilons); exactness below 512 cells is an assumption that the correspondence samples at offsets up to 399 x 199; hypothesis: no legend header before or after the move; the empty drawing is the stated exception'
-    rule = 'each item renders a legend-free input at the origin and shifted by (k spaces, n line feeds), offsets from {0,1,2,7,50,399} x {0,1,3,20,199} (thorough: random up to 400 x 200); non-trivial when the drawing has at least one cell'
-    def make(self, gen, text, k, n):
-        return Item(gen, {'base': Run(text, '', 'settings'), 'moved': Run(shift(text, k, n), '', 'settings')}, {'text': text, 'offset': [k, n]},
-                    lambda t: self.make(gen, t, k, n))
+    rule = 'each item renders a legend-free input at the origin and shifted by (k spaces, n line feeds), offsets from {0,1,2,7,50,399} x {0,1,3,20,199} (thorough: random up to 400 x 200), scales {8, 2.5, 1.5, 0.5}; non-trivial when the drawing has at least one cell'
+    def make(self, gen, text, k, n, sc='8'):
+        spec = '' if sc == '8' else 'scale=%s' % sc
+        return Item(gen, {'base': Run(text, spec, 'settings'), 'moved': Run(shift(text, k, n), spec, 'settings')}, {'text': text, 'offset': [k, n], 'scale': sc},
+                    lambda t: self.make(gen, t, k, n, sc))
     def items(self, rng, tier):
         out = []
         src = texts(rng, tier, 500, 8000)
@@ -42,7 +43,7 @@ class C06(Prop):
             else: k = rng.randint(0, 400); n = rng.randint(0, 200)
             if g.startswith('junction'): k = rng.choice([2, 5]); n = rng.choice([0, 1, 2])
             if k == 0 and n == 0: k = 1
-            out.append(self.make(g, t, k, n))
+            out.append(self.make(g, t, k, n, rng.choice(['8', '8', '8', '8', '5/2', '3/2', '1/2'])))      # the canvas and the elements move by whole cells at any scale
         return out
     def item_from_json(self, j): return item_from_json(None, j)
     def oracle(self, it):
@@ -52,7 +53,8 @@ class C06(Prop):
         cells = svgtree.sections(it.runs['base'].impl.get('cells') or '').get('cells', '')
         if not cells.strip(): return []        # an empty drawing has the constant minimal canvas
         out = []
-        dx, dy = F(8 * k), F(16 * n)
+        sc = F(it.meta.get('scale', '8'))
+        dx, dy = sc * k, 2 * sc * n
         try:
             if F(rm.get('width')) - dx != F(rb.get('width')) or F(rm.get('height')) - dy != F(rb.get('height')):
                 out.append('canvas %sx%s at the origin, %sx%s after moving by (%d,%d)' % (rb.get('width'), rb.get('height'), rm.get('width'), rm.get('height'), k, n))
